@@ -107,6 +107,7 @@ class Contract:
         self.probe = d.get("probe", False)         # known-finding probe: a variant verified WITHOUT a usage assumption
         self.probe_only = d.get("probe_only", [])  # ... of which only these obligations (substrings) are reported
         self.drop_callee_ensures = d.get("drop_callee_ensures", {})   # callee contract -> ensures-name prefixes not assumed
+        self.prefer = d.get("prefer")             # "cvc5": try cvc5 before z3 on this function's obligations
         self.ctor = d.get("ctor", False)          # constructor: invariant asserted at exit only
         self.ghost_exit = d.get("ghost_exit", {}) # ghost assignments executed at every normal exit
         self.ghost_raise = d.get("ghost_raise", {})   # ... and at every exceptional exit
@@ -396,6 +397,8 @@ class Task:
             return
         if isinstance(val, PyVal) and isinstance(sort, RefSort) and "callable_of" in self.ctx.classes.get(sort.cls, {}):
             val = self.wrap_callable(st, val, sort)
+        if isinstance(val, VEmptyDict) and isinstance(sort, MapSort):
+            val = map_empty(sort.key, sort.val)
         val = coerce(val, sort)
         arrs = self.heap_arrays(st, dcls, field, sort)
         st.heap[(dcls, field)] = [z3.Store(a, obj.z, c) for a, c in zip(arrs, val.comps)]
@@ -491,7 +494,10 @@ class Task:
                 uc = st.locals[n].comps[1:] if isinstance(sort, OptSort) else st.locals[n].comps
                 st.assume(z3.Implies(uc[0], uc[2] != null))   # an object alternative of a union is a real object
         if args.vararg or args.kwarg:
-            self.dropped.add("*args/**kwargs parameters (not modelled)")
+            self.dropped.add("*args/**kwargs parameters (opaque values, only passed on)")
+            for a in (args.vararg, args.kwarg):
+                if a is not None:
+                    st.locals[a.arg] = VOpaque(a.arg)
         for name, f in self.ctx.axioms:
             st.assume(f)
         env = dict(st.locals)
@@ -868,7 +874,12 @@ class Task:
                         prev = hs.exc
                         hs.exc = o.exc
                         if h.name:
-                            self.dropped.add("exception object binding (as e)")
+                            if "ExcObj" in self.ctx.classes:      # the sidecar models exception objects: an arbitrary object of class ExcObj
+                                eo = vref(z3.Const(fresh_name("excobj"), Ref), "ExcObj")
+                                hs.assume(eo.z != null)
+                                hs.locals = dict(hs.locals); hs.locals[h.name] = eo
+                            else:
+                                self.dropped.add("exception object binding (as e)")
                         for ho in self.exec_block(h.body, hs):
                             ho.st.exc = prev if ho.kind != Outcome.RAISE else ho.st.exc
                             after.append(ho)
@@ -967,12 +978,16 @@ class Task:
                             assigned.add(x.id)
                         elif isinstance(x, ast.Subscript) and isinstance(x.ctx, ast.Store) and isinstance(x.value, ast.Name):
                             assigned.add(x.value.id)          # d[k] = v mutates the local container d
+                        elif isinstance(x, ast.Subscript) and isinstance(x.ctx, ast.Store) and isinstance(x.value, ast.Attribute):
+                            attrs.add((mangle(x.value.attr, self.defcls), _base_name(x.value)))      # o.f[k] = v mutates the container held in field f
                         elif isinstance(x, ast.Attribute) and isinstance(x.ctx, ast.Store):
-                            attrs.add(mangle(x.attr, self.defcls))
+                            attrs.add((mangle(x.attr, self.defcls), _base_name(x)))
             if isinstance(n, ast.Call):
                 f = n.func
                 if isinstance(f, ast.Attribute) and f.attr in ("append", "clear", "extend", "update", "pop", "insert", "remove") and isinstance(f.value, ast.Name):
                     assigned.add(f.value.id)      # in-place mutation of a local container
+                if isinstance(f, ast.Attribute) and f.attr in ("append", "clear", "extend", "update", "pop", "insert", "remove") and isinstance(f.value, ast.Attribute):
+                    attrs.add((mangle(f.value.attr, self.defcls), _base_name(f.value)))      # in-place mutation of a container held in a field
                 if isinstance(f, ast.Attribute):
                     calls.add(f.attr)
                     if (self.src.relpath, ast.unparse(f)) in self.ctx.event_calls:
@@ -1034,7 +1049,14 @@ class Task:
                 st.locals[name] = parse_sort(ls[name]).fresh(f"loop.{name}")
             elif name in st.locals and isinstance(st.locals[name], V):
                 st.locals[name] = st.locals[name].sort.fresh(f"loop.{name}")
-        for a in attrs:
+        for a, base in sorted(attrs, key=str):
+            bobj = st.locals.get(base) if base is not None and base not in assigned else None
+            if isinstance(bobj, V) and isinstance(bobj.sort, RefSort) and self.ctx.field_decl(bobj.sort.cls, a) is not None and (a, None) not in attrs:
+                # the field of one object held in a local the loop does not reassign (self.f = ..., self.f[k] = ...): only that object changes
+                dcls = self.ctx.field_decl(bobj.sort.cls, a)[0]
+                if self.ctx.classes[dcls]["fields"][a] != "py":
+                    self.havoc_field(st, dcls, a, bobj)
+                continue
             for cn, cd in self.ctx.classes.items():
                 if a in cd["fields"] and cd["fields"][a] != "py":
                     self.havoc_field(st, cn, a)
@@ -1569,8 +1591,13 @@ class Task:
         if isinstance(b, V) and b.sort == STR and a.sort == STR:
             return z3.Contains(b.z, a.z)
         if isinstance(b, V) and isinstance(b.sort, SeqSort) and len(b.sort.elem.comps()) == 1:
+            if isinstance(a, V) and isinstance(a.sort, OptSort) and not isinstance(b.sort.elem, OptSort):
+                return z3.And(z3.Not(a.comps[0]), self.contains(st, V(a.sort.inner, a.comps[1:]), b, node))     # None is not an element
             i = z3.Int(fresh_name("in_i"))
             a2 = coerce(a, b.sort.elem)
+            n = z3.simplify(b.comps[0])
+            if z3.is_int_value(n) and n.as_long() <= 8:       # a list literal: expand
+                return z3.Or(*[z3.Select(b.comps[1], k) == a2.z for k in range(n.as_long())]) if n.as_long() else z3.BoolVal(False)
             return z3.Exists([i], z3.And(i >= 0, i < b.comps[0], z3.Select(b.comps[1], i) == a2.z))
         raise Unsupported(f"'in' on {b} (line {node.lineno})")
 
@@ -1735,12 +1762,18 @@ class Task:
                     res.append((s2, None, e)); continue
                 res += self.call_contract(s2, self.ctx.contracts[cn], None, vals, {}, node)
             return res
-        ov = self.ctx.call_overrides.get((self.contract.source, ftxt))
+        ov = self.ctx.call_overrides.get((self.contract.source, f"{ftxt}/{len(node.args) + len(node.keywords)}")) or self.ctx.call_overrides.get((self.contract.source, ftxt))
         if ov is not None:
             # a sidecar-declared contract for this particular call expression (reflection, **kwargs calls)
             argn = list(node.args) + [k.value for k in node.keywords]
             res = []
-            for s2, vals, e in self.ev_many([a.value if isinstance(a, ast.Starred) else a for a in argn], st):
+            def _ov_arg(a):
+                if isinstance(a, ast.Starred):
+                    return a.value
+                if isinstance(a, ast.Call) and isinstance(a.func, ast.Attribute) and a.func.attr == "items" and not a.args and not a.keywords:
+                    return a.func.value       # f(d.items()): the override contract receives the dict itself
+                return a
+            for s2, vals, e in self.ev_many([_ov_arg(a) for a in argn], st):
                 if e is not None:
                     res.append((s2, None, e)); continue
                 recv = []
@@ -1763,6 +1796,22 @@ class Task:
                 else:
                     raise Unsupported(f".{f.attr} on {a} (line {node.lineno})")
             return res
+        if isinstance(f, ast.Attribute) and f.attr == "split" and len(node.args) == 1 and not node.keywords:
+            res = []
+            handled = True
+            for s2, vals, e in self.ev_many([f.value, node.args[0]], st):
+                if e is not None:
+                    res.append((s2, None, e)); continue
+                if all(isinstance(x, V) and x.sort == STR for x in vals):
+                    # str.split(sep): only "a non-empty list of strings" is modelled (builtin, assumed)
+                    r = SeqSort(STR).fresh("split")
+                    s2.assume(r.comps[0] >= 1)
+                    self.dropped.add("str.split(sep): result modelled as an arbitrary non-empty list of strings")
+                    res.append((s2, r, None))
+                else:
+                    handled = False
+            if handled:
+                return res
         if isinstance(f, ast.Attribute) and f.attr == "join" and len(node.args) == 1 and isinstance(f.value, ast.Constant) and isinstance(f.value.value, str):
             res = []
             for s2, v, e in self.ev(node.args[0], st):
@@ -1782,7 +1831,7 @@ class Task:
             if r is not None:
                 return r
         # list mutators on locals / fields: x.append(v), x.clear()
-        if isinstance(f, ast.Attribute) and f.attr in ("append", "clear") and not self.is_noop_call(f, st):
+        if isinstance(f, ast.Attribute) and f.attr in ("append", "clear", "extend") and not self.is_noop_call(f, st):
             r = self.try_list_method(node, st)
             if r is not None:
                 return r
@@ -1913,6 +1962,21 @@ class Task:
             for s3, v, e3 in self.ev(node.args[0], s2):
                 if e3 is not None:
                     res.append((s3, None, e3)); continue
+                if f.attr == "extend":
+                    if not (isinstance(v, V) and isinstance(v.sort, SeqSort)):
+                        raise Unsupported(f"list.extend with {v} (line {node.lineno})")
+                    c2 = seq_empty(v.sort.elem) if cont.sort.elem == NONE else cont
+                    if c2.sort != v.sort:
+                        raise Unsupported(f"list.extend of {c2.sort} with {v.sort} (line {node.lineno})")
+                    new = c2.sort.fresh("ext")       # concatenation (builtin semantics): a fresh sequence constrained pointwise
+                    qi = z3.Int(fresh_name("exti"))
+                    s3.assume(new.comps[0] == c2.comps[0] + v.comps[0])
+                    for na, oa, va in zip(new.comps[1:], c2.comps[1:], v.comps[1:]):
+                        s3.assume(z3.ForAll([qi], z3.Implies(z3.And(qi >= 0, qi < c2.comps[0]), z3.Select(na, qi) == z3.Select(oa, qi))))
+                        s3.assume(z3.ForAll([qi], z3.Implies(z3.And(qi >= c2.comps[0], qi < new.comps[0]), z3.Select(na, qi) == z3.Select(va, qi - c2.comps[0])), patterns=[z3.Select(na, qi)]))
+                    for s4 in self.assign_to(_as_store(f.value), new, s3):
+                        res.append((s4, VNONE, None) if not isinstance(s4, Outcome) else (s4.st, None, s4.exc))
+                    continue
                 if isinstance(v, VPyTuple):
                     if isinstance(cont.sort.elem, TupleSort) and len(cont.sort.elem.items) == len(v.items):
                         v = vtuple([self.wrap_callable(s3, it, es) if isinstance(it, PyVal) and isinstance(es, RefSort) and "callable_of" in self.ctx.classes.get(es.cls, {}) else it
@@ -2106,13 +2170,13 @@ class Task:
                     s.assume(self.spec_bool(s, t, {"self": self_v}, pre, self_cls))
             return r
 
-        if c.raises:
+        for exn in (c.raises if isinstance(c.raises, (list, tuple)) else [c.raises] if c.raises else []):
             rs = st.fork()
             rs.trace.append((getattr(node, "lineno", 0), f"{c.name} raises"))
             post(rs, True)
             if self.feasible(rs):
                 # user code may raise anything, including BaseException subclasses such as SystemExit: only a bare `except:` stops those
-                res.append((rs, None, c.raises if isinstance(c.raises, str) else "UserBaseException"))
+                res.append((rs, None, exn if isinstance(exn, str) else "UserBaseException"))
         ns = st.fork() if c.raises else st
         r = post(ns, False)
         if not c.raises or self.feasible(ns):
@@ -2151,6 +2215,16 @@ class Task:
                 res.append((s2, vals[0], None))
             elif name == "bool":
                 res.append((s2, vbool(truth(vals[0])), None))
+            elif name == "list" and len(vals) == 1 and isinstance(vals[0], V) and isinstance(vals[0].sort, OptSort) and isinstance(vals[0].sort.inner, SeqSort):
+                isnone = vals[0].comps[0]
+                if self.feasible(s2, isnone):
+                    f2 = s2.fork(); f2.assume(isnone)
+                    res.append((f2, None, "TypeError"))       # list(None)
+                if self.feasible(s2, z3.Not(isnone)):
+                    f3 = s2.fork(); f3.assume(z3.Not(isnone))
+                    res.append((f3, V(vals[0].sort.inner, vals[0].comps[1:]), None))
+            elif name == "list" and len(vals) == 1 and isinstance(vals[0], V) and isinstance(vals[0].sort, SeqSort):
+                res.append((s2, vals[0], None))       # list(seq): a copy (sequences are values here)
             elif name == "type" and len(vals) == 1 and isinstance(vals[0], V) and vals[0].sort == NONE:
                 res.append((s2, vref(z3.Const("class.NoneType", Ref), "TypeObj"), None))
             elif name == "type" and len(vals) == 1:
@@ -2248,6 +2322,11 @@ STR_JOIN = z3.Function("str_join", z3.StringSort(), z3.IntSort(), z3.ArraySort(z
 FRESH = z3.Function("fresh_object", Ref, z3.BoolSort())
 CALLABLE = z3.Function("is_callable", Ref, z3.BoolSort())
 ISINSTANCE = z3.Function("isinstance", Ref, Ref, z3.BoolSort())
+
+
+def _base_name(attr_node):
+    """x.f -> 'x' when the object expression is a plain local name, else None"""
+    return attr_node.value.id if isinstance(attr_node.value, ast.Name) else None
 
 
 class VSuper(PyVal):
